@@ -1,9 +1,9 @@
 from common import *
 from rpcommon import *
 ID = 'C08'
-TRANSLATORS = [('consts2coq.py', ['coq/Gen/Consts.v'])]
-GEN_FILES = ['coq/Gen/Consts.v']
-COQ_TARGETS = ['Properties_C08.vo', 'Proof/ConstsRegp.vo']
+TRANSLATORS = [('consts2coq.py', ['coq/Gen/Consts.v']), ('regp2coq.py', ['coq/Gen/RegpMotvGen.v'])]
+GEN_FILES = ['coq/Gen/Consts.v', 'coq/Gen/RegpMotvGen.v']
+COQ_TARGETS = ['Properties_C08.vo', 'Proof/ConstsRegp.vo', 'Proof/RegpMotvT.vo']
 HARNESS_MODS = ['rp']
 RULE = ('cases: rp.emit serial mem16 seq kind ftype fseq addr n val payload (kind: 0/1 read request 8/16 bit, 2/3 write request 8/16 bit, 4 acknowledge, '
         '10+code error response, 30 meta; obs: return code, next sequence number, wire octets, then what the library\'s own receiver on the same transport '
@@ -15,7 +15,7 @@ ASSUMPTIONS = ['little-endian host: 16-bit payload words travel in host memory o
 EXHAUSTIVE = {'quick': False, 'thorough': False}
 TECHNIQUE = 'Coq proof (header round trip, acceptance by the own receiver, equality with the independent octet-level reading of the document, SLIP/varint deframing, sequence numbers) + correspondence of every emitter'
 LEVEL_TEXT = "Theorems in Properties_C08.v: every emitter (read/write requests 8/16 bit, acknowledge with/without payload, eleven error responses, meta) on either transport sends framing(header ++ payload) of a conforming frame; the receiver model deframes it (SLIP incl. control characters in any field, varint prefix of any length), parses back type, option bits, code, sequence number, address, block size, payload and accepts it, sending nothing; header ++ payload equal the octets prescribed by the independent reading of doc/regp.txt (big-endian fields, CRC-16/ARC header/payload checksums exactly on serial, payload checksum only with payload); the k-th request of a session carries sequence start+k mod 2^16.  Model tied to the C by correspondence (wire image and the own receiver's result per emitter)."
-LEVEL_NOTE = 'Trusted: Coq kernel; hand model of register-protocol.c + hand-written reading of doc/regp.txt; SLIP and varint specifications shared with C12/C14; correspondence. Block sizes < 2^32. No axioms.'
+LEVEL_NOTE = 'Trusted: Coq kernel; hand model of register-protocol.c + hand-written reading of doc/regp.txt; SLIP and varint specifications shared with C12/C14; correspondence. Block sizes < 2^32. No axioms. Translator tie: make_motv of src/register-protocol.c (first header word of every emitted frame), translated on every check (tools/regp2coq.py), is proved equal to the make_motv of the model for every frame type, meta code, memory semantics, memory type, transport and block size (Proof/RegpMotvSweep.v, Proof/RegpMotvT.v).'
 
 def gen(rng, tier):
     for l in gen_emit(rng, 60 if tier == 'thorough' else 6):
